@@ -119,6 +119,10 @@ type Obligation struct {
 	Model   string
 	Size    int
 	Vacuity bool // cover query: expected sat
+	// Parts: the goal is the conjunction of (Pc_i => Goal_i) (one per return of the function); when the
+	// whole conjunction is not decided the parts are tried one by one (each under its own return's path condition).
+	Parts [][2]string
+	Split bool // decided through its parts
 }
 
 // VC is the verification context of one function (or lemma).
